@@ -4,6 +4,9 @@
   Units: the signed content of a quire state is an integer multiple of 2^-hr (`QState.toInt`).
 -/
 import UVerifProofs.Lemmas.Quire
+import UVerifProofs.Lemmas.Pow2
+import UVerifProofs.Lemmas.PositArith
+import Mathlib.Tactic.FieldSimp
 import Mathlib.Algebra.BigOperators.Group.List.Basic
 
 open UVerif UVerif.Quire
@@ -172,3 +175,70 @@ theorem C05_addValue_is_accumulate (L : Layout) (q : QState) (v : Posit.Val) (hz
   unfold addValue
   simp only [hz, Bool.false_eq_true, if_false]
   rw [if_neg (by omega), if_neg (by omega)]
+
+/-! ### the single rounding (uses C01 `convert_correct`) -/
+
+/-- the exact rational content of a quire state: signed integer content times 2^-hr -/
+def UVerif.Quire.QState.toRat (L : Layout) (q : QState) : ℚ := (q.toInt L : ℚ) * pow2 (-(L.hr : Int))
+
+/-- **to_value() is exact.** For every layout and every well-formed non-empty state the (sign, scale, fraction) triple
+    handed to the rounding step denotes exactly the quire's content. -/
+theorem C05_to_value_exact (L : Layout) (q : QState) (hq : q.WF L) (hM : q.mag L ≠ 0) :
+    (toValue L q).toRat = q.toRat L := by
+  have hlt := mag_lt L q hq
+  rw [tot_eq] at hlt
+  unfold toValue QState.toRat QState.toInt
+  simp only [hM, if_false]
+  generalize q.mag L = M at *
+  have hlo : 2 ^ M.log2 ≤ M := Nat.log2_self_le hM
+  have hhi : M < 2 ^ (M.log2 + 1) := Nat.lt_log2_self
+  have hmsb : M.log2 ≤ L.qbits := by
+    by_contra hc
+    have := Nat.pow_le_pow_right (show 0 < 2 by decide) (show L.qbits + 1 ≤ M.log2 by omega)
+    omega
+  generalize M.log2 = m at *
+  unfold Posit.Val.toRat
+  simp only [Bool.false_eq_true, if_false, Nat.shiftLeft_eq]
+  have e1 : ((m : Int) - (L.hr : Int)) = (-(L.hr : Int)) + ((m : Nat) : Int) := by ring
+  rw [e1, UVerif.pow2_add, UVerif.pow2_natCast]
+  have hq2 : (2 ^ L.qbits : Nat) = 2 ^ (L.qbits - m) * 2 ^ m := by rw [← Nat.pow_add]; congr 1; omega
+  have hval : (1 + (((M - 2 ^ m) * 2 ^ (L.qbits - m) : Nat) : ℚ) / ((2 ^ L.qbits : Nat) : ℚ)) * ((2 ^ m : Nat) : ℚ) = (M : ℚ) := by
+    rw [hq2]
+    push_cast [Nat.cast_sub hlo]
+    have p1 : (0 : ℚ) < 2 ^ (L.qbits - m) := by positivity
+    have p2 : (0 : ℚ) < 2 ^ m := by positivity
+    field_simp
+    ring
+  have hp := UVerif.pow2_pos (-(L.hr : Int))
+  cases hs : q.sign
+  · simp only [Bool.false_eq_true, if_false]
+    calc _ = (1 + (((M - 2 ^ m) * 2 ^ (L.qbits - m) : Nat) : ℚ) / ((2 ^ L.qbits : Nat) : ℚ)) * ((2 ^ m : Nat) : ℚ) * pow2 (-(L.hr : Int)) := by ring
+      _ = _ := by rw [hval]; push_cast; ring
+  · simp only [if_true]
+    calc _ = -((1 + (((M - 2 ^ m) * 2 ^ (L.qbits - m) : Nat) : ℚ) / ((2 ^ L.qbits : Nat) : ℚ)) * ((2 ^ m : Nat) : ℚ) * pow2 (-(L.hr : Int))) := by ring
+      _ = _ := by rw [hval]; push_cast; ring
+
+/-- **One rounding.** Converting a well-formed non-empty quire to a posit returns the posit the Standard selects for the
+    quire's exact content — for every posit configuration, every capacity. With `C05_history_exact` this makes fdp and the
+    fused matrix products the correctly rounded exact results, independent of order and partitioning. -/
+theorem C05_round_once (n es : Nat) (hn : 2 ≤ n) (L : Layout) (q : QState) (hq : q.WF L) (hM : q.mag L ≠ 0) :
+    Posit.PositNearest n es (q.toRat L) (roundToPosit n es L q) := by
+  rw [← C05_to_value_exact L q hq hM]
+  unfold roundToPosit
+  apply Posit.convert_val_correct n es hn
+  have hlt := mag_lt L q hq
+  rw [tot_eq] at hlt
+  unfold toValue
+  simp only [hM, if_false]
+  refine ⟨rfl, rfl, ?_⟩
+  simp only [Nat.shiftLeft_eq]
+  have hlo : 2 ^ (q.mag L).log2 ≤ q.mag L := Nat.log2_self_le hM
+  have hhi : q.mag L < 2 ^ ((q.mag L).log2 + 1) := Nat.lt_log2_self
+  have hmsb : (q.mag L).log2 ≤ L.qbits := by
+    by_contra hc
+    have := Nat.pow_le_pow_right (show 0 < 2 by decide) (show L.qbits + 1 ≤ (q.mag L).log2 by omega)
+    omega
+  have e : 2 ^ L.qbits = 2 ^ (q.mag L).log2 * 2 ^ (L.qbits - (q.mag L).log2) := by rw [← Nat.pow_add]; congr 1; omega
+  rw [e]
+  apply Nat.mul_lt_mul_of_pos_right _ (Nat.two_pow_pos _)
+  rw [Nat.pow_succ] at hhi; omega
